@@ -28,6 +28,19 @@ class StepBudgetExceeded(BaseException):
     """A run executed more simulator steps than its cap."""
 
 
+class HarnessBug(BaseException):
+    """An exception escaped from simulator / check code that real library code was calling into
+    (a stub's chunking callback, a producer task). BaseException so it passes through the library
+    and reaches the runner, which reports it as a harness error (exit 2), never as a violation."""
+
+
+def _guard(fn, *args):
+    try:
+        return fn(*args)
+    except Exception as e:      # noqa: BLE001
+        raise HarnessBug(f"{type(e).__name__}: {e} in simulator callback {getattr(fn, '__name__', fn)}") from e
+
+
 EOF_READ_BUDGET = 8          # a correct framer needs one or two reads at EOF; the 9th is fatal
 
 
@@ -74,7 +87,7 @@ class World:
         t, _tie, _seq, fn, args = heapq.heappop(self.heap)
         if t > self.now:
             self.now = t
-        fn(*args)
+        _guard(fn, *args)
         return True
 
     def next_time(self):
@@ -179,7 +192,7 @@ class SimSocket(socket.socket):
                 if avail == 0:
                     w.ev(self._name, "recv", 0)
                     return b""
-                n = avail if self._take is None else self._take(avail)
+                n = avail if self._take is None else _guard(self._take, avail)
                 out = bytes(p.buf[:n])
                 del p.buf[:n]
                 w.ev(self._name, "recv", n)
@@ -266,7 +279,7 @@ class SimRaw(io.RawIOBase):
                 raise LivenessViolation(
                     f"read() reached the raw device {self.eof_reads} times at end-of-file")
             return 0
-        n = possible if self._short is None else self._short(possible)
+        n = possible if self._short is None else _guard(self._short, possible)
         b[:n] = self._data[self._pos:self._pos + n]
         self._pos += n
         self._w.ev(self._name, "read", n)
